@@ -566,6 +566,38 @@ def _dump_float(value: float) -> Union[float, str]:
     return value
 
 
+def _scalar_to_json(proto_type: str, value: Any) -> Any:
+    """JSON form of a single scalar (used for map values and wrapper types)."""
+    if proto_type in INT_64_TYPES:
+        return str(value)
+    if proto_type == TYPE_BYTES:
+        return b64encode(value).decode("utf8")
+    if proto_type in (TYPE_FLOAT, TYPE_DOUBLE):
+        return _dump_float(value)
+    return value
+
+
+def _scalar_from_json(proto_type: str, value: Any) -> Any:
+    """Inverse of :func:`_scalar_to_json`."""
+    if proto_type in INT_64_TYPES:
+        return int(value)
+    if proto_type == TYPE_BYTES:
+        return b64decode(value)
+    if proto_type in (TYPE_FLOAT, TYPE_DOUBLE):
+        return _parse_float(value)
+    return value
+
+
+def _map_key_from_json(proto_type: str, key: Any) -> Any:
+    """JSON object keys are always strings: recover int and bool map keys."""
+    if isinstance(key, str):
+        if proto_type == TYPE_BOOL:
+            return key == "true"
+        if proto_type != TYPE_STRING:
+            return int(key)
+    return key
+
+
 def _enum_to_json(enum_class: Type[Enum], value: int) -> Union[str, int]:
     """The member's name, or the bare number for a number the enum doesn't define
     (enums are open: the proto3 JSON mapping writes unknown values as numbers)."""
@@ -1490,6 +1522,10 @@ class Message(ABC):
                         output[cased_name] = _Duration.delta_to_json(value)
                 elif meta.wraps:
                     if value is not None or include_default_values:
+                        if isinstance(value, list):
+                            value = [_scalar_to_json(meta.wraps, i) for i in value]
+                        elif value is not None:
+                            value = _scalar_to_json(meta.wraps, value)
                         output[cased_name] = value
                 elif field_is_repeated:
                     # Convert each item.
@@ -1517,10 +1553,23 @@ class Message(ABC):
                 ):
                     output[cased_name] = value.to_dict(casing, include_default_values)
             elif meta.proto_type == TYPE_MAP:
+                assert meta.map_types
+                value_type = meta.map_types[1]
                 output_map = {**value}
                 for k in value:
                     if hasattr(value[k], "to_dict"):
                         output_map[k] = value[k].to_dict(casing, include_default_values)
+                    elif isinstance(value[k], datetime):
+                        output_map[k] = _Timestamp.timestamp_to_json(value[k])
+                    elif isinstance(value[k], timedelta):
+                        output_map[k] = _Duration.delta_to_json(value[k])
+                    elif value_type == TYPE_ENUM:
+                        output_map[k] = _enum_to_json(
+                            self._betterproto.cls_by_field[f"{field_name}.value"],
+                            value[k],
+                        )
+                    else:
+                        output_map[k] = _scalar_to_json(value_type, value[k])
 
                 if value or include_default_values:
                     output[cased_name] = output_map
@@ -1610,9 +1659,37 @@ class Message(ABC):
                         if isinstance(value, list)
                         else sub_cls.from_dict(value)
                     )
-            elif meta.map_types and meta.map_types[1] == TYPE_MESSAGE:
+                else:
+                    value = (
+                        [_scalar_from_json(meta.wraps, item) for item in value]
+                        if isinstance(value, list)
+                        else _scalar_from_json(meta.wraps, value)
+                    )
+            elif meta.map_types:
+                key_type, value_type = meta.map_types
                 sub_cls = cls._betterproto.cls_by_field[f"{field_name}.value"]
-                value = {k: sub_cls.from_dict(v) for k, v in value.items()}
+                if sub_cls == datetime:
+                    convert = isoparse
+                elif sub_cls == timedelta:
+                    convert = _Duration.delta_from_json
+                elif value_type == TYPE_MESSAGE:
+                    convert = sub_cls.from_dict
+                elif value_type == TYPE_ENUM:
+
+                    def convert(v: Any, enum_cls: Type[Enum] = sub_cls) -> Any:
+                        if isinstance(v, str):
+                            return enum_cls.from_string(v)
+                        return enum_cls.try_value(v)
+
+                else:
+
+                    def convert(v: Any, value_type: str = value_type) -> Any:
+                        return _scalar_from_json(value_type, v)
+
+                value = {
+                    _map_key_from_json(key_type, k): convert(v)
+                    for k, v in value.items()
+                }
             else:
                 if meta.proto_type in INT_64_TYPES:
                     value = (
